@@ -84,12 +84,24 @@ theorem mem_nonEmpty {L : List (List Ev)} {b : List Ev} (h : b ∈ nonEmpty L) :
       · exact ⟨mem_cons_self, by simp⟩
       · exact ⟨mem_cons_of_mem _ (ih h).1, (ih h).2⟩
 
+/-- The delta filter compares against the manifest's mark (the branch of `filterMark` the source
+takes, `Snel.Gen.C14.deltaFilterFromSink`). -/
+@[simp] theorem filterMark_eq (e : Entry) : filterMark e = sinkMark e.frames := by
+  simp [filterMark, Snel.Gen.C14.deltaFilterFromSink]
+
 @[simp] theorem afterShow_frames (e : Entry) (sched : List (List Ev)) :
-    (e.afterShow sched).frames = e.frames ++ keptBatches (sinkMark e.frames) sched := rfl
+    (e.afterShow sched).frames = e.frames ++ keptBatches (sinkMark e.frames) sched := by
+  simp [Entry.afterShow]
+@[simp] theorem afterCut_frames (e : Entry) (sched : List (List Ev)) :
+    (e.afterCut sched).frames = e.frames ++ keptBatches (sinkMark e.frames) sched := by
+  simp [Entry.afterCut]
+@[simp] theorem afterCut_q (e : Entry) (sched : List (List Ev)) : (e.afterCut sched).q = e.q := rfl
+@[simp] theorem afterCut_mark (e : Entry) (sched : List (List Ev)) : (e.afterCut sched).mark = e.mark := rfl
 @[simp] theorem afterShow_q (e : Entry) (sched : List (List Ev)) : (e.afterShow sched).q = e.q := rfl
 @[simp] theorem afterShow_mark (e : Entry) (sched : List (List Ev)) :
     (e.afterShow sched).mark = nextMark e.mark (sinkMark e.frames)
-      (sinkMark (e.frames ++ keptBatches (sinkMark e.frames) sched)) := rfl
+      (sinkMark (e.frames ++ keptBatches (sinkMark e.frames) sched)) := by
+  simp [Entry.afterShow]
 @[simp] theorem initial_frames (q : Spec) (now : Nat) (sched : List (List Ev)) :
     (Entry.initial q now sched).frames = nonEmpty sched := rfl
 @[simp] theorem initial_q (q : Spec) (now : Nat) (sched : List (List Ev)) :
@@ -189,12 +201,13 @@ theorem filter_kept_zones {zs : List Zone} (hz : ∀ z ∈ zs, z.Truthful) {c h 
         have := hP r hPr; have := hlow r hr; omega
       simp [hk, ih', this]
 
-/-- The mark the catalog records is the sink's mark. -/
+/-- The mark the catalog records is never above the manifest's (it equals it after REMEMBER and
+after every completed SHOW, and lags behind after an interrupted one). -/
 def MarkOk (e : Entry) : Prop :=
-  e.mark = (if isZero (sinkMark e.frames) then none else some (sinkMark e.frames))
+  ∀ m, e.mark = some m → lexGt m (sinkMark e.frames) = false
 
 theorem delta_pred_eq (q : Spec) (mark : Option (Nat × Nat)) (w0 : Nat × Nat)
-    (hm : mark = (if isZero w0 then none else some w0)) (r : Ev) :
+    (hm : ∀ m, mark = some m → lexGt m w0 = false) (r : Ev) :
     (({ q with since := deltaSince q.since mark } : Spec).matches r && lexGt r.pos w0)
       = (q.matches r && lexGt r.pos w0) := by
   cases hg : lexGt r.pos w0 with
@@ -204,19 +217,27 @@ theorem delta_pred_eq (q : Spec) (mark : Option (Nat × Nat)) (w0 : Nat × Nat)
     simp only [Ev.pos] at hts
     simp only [Bool.and_true, Spec.matches]
     congr 1
-    subst hm
-    cases hz : isZero w0 with
-    | true => simp [deltaSince]
-    | false =>
-      simp only [deltaSince, hz, Bool.false_eq_true, if_false]
-      cases q.since with
-      | none => simp [hts]
-      | some t =>
-        by_cases h : t < w0.1
-        · simp only [h, if_true]
-          have : t ≤ r.ts := by omega
-          simp [hts, this]
-        · simp [h]
+    cases mark with
+    | none => simp [deltaSince]
+    | some m =>
+      have hle : m.1 ≤ w0.1 := by
+        have := hm m rfl
+        rw [lexGt_false_iff] at this; omega
+      cases hz : isZero m with
+      | true => simp [deltaSince, hz]
+      | false =>
+        simp only [deltaSince, hz, Bool.false_eq_true, if_false]
+        cases q.since with
+        | none =>
+          have : m.1 ≤ r.ts := by omega
+          simp [this]
+        | some t =>
+          by_cases h : t < m.1
+          · simp only [h, if_true]
+            have h1 : t ≤ r.ts := by omega
+            have h2 : m.1 ≤ r.ts := by omega
+            simp [h1, h2]
+          · simp [h]
 
 /-- **Dropping zones and tightening SINCE never changes what passes the watermark filter**:
 the rows SHOW keeps from its delta query are exactly the visible rows of the remembered
@@ -406,21 +427,53 @@ theorem markOk_after_show {e : Entry} (hm : MarkOk e) (sched : List (List Ev)) :
     MarkOk (e.afterShow sched) := by
   unfold MarkOk at *
   rw [afterShow_frames, afterShow_mark]
-  by_cases hk : keptBatches (sinkMark e.frames) sched = []
-  · rw [hk, sinkMark_append_nil]
-    simp only [nextMark]
-    rw [hm]
-    cases isZero (sinkMark e.frames) <;> simp
-  · have hab := kept_mark_above hk
-    have hne : sinkMark (e.frames ++ keptBatches (sinkMark e.frames) sched) ≠ sinkMark e.frames := by
-      intro heq; rw [heq, lexLe_refl] at hab; cases hab
-    have hz : isZero (sinkMark (e.frames ++ keptBatches (sinkMark e.frames) sched)) = false := by
-      cases hz : isZero (sinkMark (e.frames ++ keptBatches (sinkMark e.frames) sched)) with
-      | false => rfl
-      | true =>
-        simp only [isZero, Bool.and_eq_true, beq_iff_eq] at hz
-        rw [lexGt_iff] at hab; omega
-    simp only [nextMark, hz, Bool.false_eq_true, if_false, if_neg hne]
+  intro m hmk
+  have hmono := sinkMark_mono e.frames (keptBatches (sinkMark e.frames) sched)
+  simp only [nextMark] at hmk
+  split at hmk
+  · exact lexLe_trans (hm m hmk) hmono
+  · split at hmk
+    · exact lexLe_trans (hm m hmk) hmono
+    · cases hmk; exact lexLe_refl _
+
+/-- An interrupted SHOW leaves the catalog mark where it was: at or below the manifest's. -/
+theorem markOk_after_cut {e : Entry} (hm : MarkOk e) (sched : List (List Ev)) :
+    MarkOk (e.afterCut sched) := by
+  unfold MarkOk at *
+  rw [afterCut_frames, afterCut_mark]
+  intro m hmk
+  exact lexLe_trans (hm m hmk) (sinkMark_mono e.frames _)
+
+theorem markOk_initial (q : Spec) (now : Nat) (sched : List (List Ev)) :
+    MarkOk (Entry.initial q now sched) := by
+  unfold MarkOk
+  rw [initial_frames, initial_mark]
+  intro m hmk
+  split at hmk
+  · cases hmk
+  · cases hmk; exact lexLe_refl _
+
+/-- The frames after a (completed or interrupted) SHOW are the visible rows of the selection at or
+below the new manifest mark. -/
+theorem frames_after_show_perm {s : St} (hi : Inv s) {n : Nat} {e : Entry} (he : s.cat n = some e)
+    {sched : List (List Ev)} (hl : LegitShow s n sched) :
+    (e.frames ++ keptBatches (sinkMark e.frames) sched).flatten.Perm
+      (s.store.vis.filter (fun r => e.q.matches r &&
+        !lexGt r.pos (sinkMark (e.frames ++ keptBatches (sinkMark e.frames) sched)))) := by
+  have hrows := show_rows_perm hi he hl
+  have hcov := covers_always (e.frames ++ keptBatches (sinkMark e.frames) sched)
+  rw [flatten_append]
+  refine hrows.trans ?_
+  apply Perm.of_eq
+  apply filter_congr
+  intro r hr
+  cases hq : e.q.matches r with
+  | false => simp
+  | true =>
+    have hin : r ∈ e.frames.flatten ++ (keptBatches (sinkMark e.frames) sched).flatten :=
+      hrows.mem_iff.mpr (mem_filter.mpr ⟨hr, hq⟩)
+    rw [← flatten_append] at hin
+    simp [hcov r hin]
 
 /-- SHOW preserves the invariant. -/
 theorem show_inv {s : St} (hi : Inv s) {n : Nat} {sched : List (List Ev)}
@@ -428,7 +481,7 @@ theorem show_inv {s : St} (hi : Inv s) {n : Nat} {sched : List (List Ev)}
   cases he : s.cat n with
   | none => simpa [showM, he] using hi
   | some e =>
-    have hrows := show_rows_perm hi he hl
+    have hperm := frames_after_show_perm hi he hl
     obtain ⟨ht, hp, hcat⟩ := hi
     rw [showM_cat he]
     refine ⟨ht, hp, ?_⟩
@@ -439,19 +492,32 @@ theorem show_inv {s : St} (hi : Inv s) {n : Nat} {sched : List (List Ev)}
       subst hk
       refine ⟨?_, markOk_after_show (hcat n e he).2 sched⟩
       rw [afterShow_frames, afterShow_q]
-      have hcov := covers_always (e.frames ++ keptBatches (sinkMark e.frames) sched)
-      rw [flatten_append]
-      refine hrows.trans ?_
-      apply Perm.of_eq
-      apply filter_congr
-      intro r hr
-      cases hq : e.q.matches r with
-      | false => simp
-      | true =>
-        have hin : r ∈ e.frames.flatten ++ (keptBatches (sinkMark e.frames) sched).flatten :=
-          hrows.mem_iff.mpr (mem_filter.mpr ⟨hr, hq⟩)
-        rw [← flatten_append] at hin
-        simp [hcov r hin]
+      exact hperm
+    · simp only [hkn, if_false] at hk
+      exact hcat k e' hk
+
+theorem showCut_cat {s : St} {n : Nat} {e : Entry} (he : s.cat n = some e) (sched : List (List Ev)) :
+    showCut s n sched = { s with cat := setCat s.cat n (e.afterCut sched) } := by
+  simp [showCut, he]
+
+/-- … and so does an interrupted SHOW. -/
+theorem cut_inv {s : St} (hi : Inv s) {n : Nat} {sched : List (List Ev)}
+    (hl : LegitShow s n sched) : Inv (showCut s n sched) := by
+  cases he : s.cat n with
+  | none => simpa [showCut, he] using hi
+  | some e =>
+    have hperm := frames_after_show_perm hi he hl
+    obtain ⟨ht, hp, hcat⟩ := hi
+    rw [showCut_cat he]
+    refine ⟨ht, hp, ?_⟩
+    intro k e' hk
+    simp only [setCat] at hk
+    by_cases hkn : k = n
+    · simp only [hkn, if_true, Option.some.injEq] at hk
+      subst hk
+      refine ⟨?_, markOk_after_cut (hcat n e he).2 sched⟩
+      rw [afterCut_frames, afterCut_q]
+      exact hperm
     · simp only [hkn, if_false] at hk
       exact hcat k e' hk
 
@@ -478,7 +544,7 @@ theorem remember_inv {s : St} (hi : Inv s) {n : Nat} {q : Spec} {now : Nat} {sch
     by_cases hkn : k = n
     · simp only [hkn, if_true, Option.some.injEq] at hk
       subst hk
-      refine ⟨?_, rfl⟩
+      refine ⟨?_, markOk_initial q now sched⟩
       rw [initial_frames, initial_q, flatten_nonEmpty]
       unfold LegitRemember at hl
       rw [flushEnd_eq hp, runQuery_none] at hl
@@ -539,6 +605,7 @@ def StepOk (s : St) : Op → Prop
   | .relayout st => RelayoutOk s.store st
   | .remember _ q _ sched => LegitRemember s q sched
   | .showM n sched => LegitShow s n sched
+  | .showCut n sched => LegitShow s n sched
 
 inductive Reach : St → Prop
   | init : Reach St.init
@@ -553,6 +620,7 @@ theorem reach_inv {s : St} (h : Reach s) : Inv s := by
     | relayout st => exact relayout_inv ih hok
     | remember n q now sched => exact remember_inv ih hok
     | showM n sched => exact show_inv ih hok
+    | showCut n sched => exact cut_inv ih hok
 
 /-! ## Instances of the hypothesis -/
 
